@@ -60,6 +60,24 @@ theorem advWhileF_nl (p : UInt8 → Bool) (hp : p LF = false) (n : Nat) (z : Z) 
 theorem advWhile_nl (p : UInt8 → Bool) (hp : p LF = false) (z : Z) : AdvNL z (advWhile p z) :=
   advWhileF_nl p hp _ z
 
+theorem advLineF_nl (p : UInt8 → Bool) (n : Nat) (z : Z) : AdvNL z (advLineF p n z) := by
+  induction n generalizing z with
+  | zero => exact AdvNL.refl z
+  | succ n ih =>
+    unfold advLineF
+    split
+    · exact AdvNL.refl z
+    · rename_i b t hz
+      split
+      · rename_i hpb
+        have hc : peek z ≠ LF := by
+          simp only [Bool.and_eq_true, Bool.not_eq_true'] at hpb
+          simpa [peek, hz] using atEol_ne_lf hpb.2
+        exact (advance_nl hc).trans (ih _)
+      · exact AdvNL.refl z
+
+theorem advLine_nl (p : UInt8 → Bool) (z : Z) : AdvNL z (advLine p z) := advLineF_nl p _ z
+
 theorem advIf_nl (p : UInt8 → Bool) (hp : p LF = false) (z : Z) : AdvNL z (advIf p z) := by
   unfold advIf
   split
@@ -131,19 +149,19 @@ theorem mkTok_nl {z e : Z} (ty : TokType) (v : Bytes) (he : AdvNL z e) (hty : ty
 theorem scanDate_nl (z : Z) : NL z (scanDate z) :=
   mkTok_nl _ _ (advWhile_nl _ (by decide) z) (by decide)
 theorem scanIndent_nl (z : Z) : NL z (scanIndent z) :=
-  mkTok_nl _ _ (advWhile_nl _ (by decide) z) (by decide)
+  mkTok_nl _ _ (advLine_nl _ z) (by decide)
 theorem scanText_nl (z : Z) : NL z (scanText z) :=
-  mkTok_nl _ _ (advWhile_nl _ (by decide) z) (by decide)
+  mkTok_nl _ _ (advLine_nl _ z) (by decide)
 theorem scanStatus_nl {z : Z} (hp : peek z ≠ LF) : NL z (scanStatus z) :=
   mkTok_nl _ _ (advance_nl hp) (by decide)
 theorem scanSign_nl {z : Z} (hp : peek z ≠ LF) : NL z (scanSign z) :=
   mkTok_nl _ _ (advance_nl hp) (by decide)
 theorem scanCode_nl {z : Z} (hp : peek z ≠ LF) : NL z (scanCode z) :=
-  mkTok_nl _ _ (((advance_nl hp).trans (advWhile_nl _ (by decide) _)).trans (advIf_nl _ (by decide) _)) (by decide)
+  mkTok_nl _ _ (((advance_nl hp).trans (advLine_nl _ _)).trans (advIf_nl _ (by decide) _)) (by decide)
 theorem scanQuotedCommodity_nl {z : Z} (hp : peek z ≠ LF) : NL z (scanQuotedCommodity z) :=
-  mkTok_nl _ _ (((advance_nl hp).trans (advWhile_nl _ (by decide) _)).trans (advIf_nl _ (by decide) _)) (by decide)
+  mkTok_nl _ _ (((advance_nl hp).trans (advLine_nl _ _)).trans (advIf_nl _ (by decide) _)) (by decide)
 theorem scanComment_nl {z : Z} (hp : peek z ≠ LF) : NL z (scanComment z) :=
-  mkTok_nl _ _ ((advance_nl hp).trans (advWhile_nl _ (by decide) _)) (by decide)
+  mkTok_nl _ _ ((advance_nl hp).trans (advLine_nl _ _)) (by decide)
 
 theorem advance_nl_of_headIs {z : Z} {c : UInt8} (hc : c ≠ LF) (h : headIs c z.after = true) :
     AdvNL z (advance z) := by
@@ -248,17 +266,18 @@ theorem skipSpaces_spec (z : Z) :
 /-- What one call of `Next` does: it skips blanks `sp` and then either
     * `tok`: returns a token that starts right behind the blanks/tabs and covers `pre`, which
       contains no line feed (the EOF token at the end of input is the case `pre = []`), or
-    * `newline`: consumes exactly one line feed, returns the Newline token for it and moves
-      to column 1 of the next line. -/
+    * `newline`: consumes exactly one line end — a line feed, or a carriage return and the
+      line feed behind it (`cr = [CR]`) —, returns the Newline token for it (which starts at
+      the carriage return if there is one) and moves to column 1 of the next line. -/
 inductive Step (z : Z) (r : Token × Z) : Prop
   | tok (sp pre : Bytes) (hsp : ∀ c ∈ sp, isBlank c = true) (hpre : LF ∉ pre)
       (hafter : z.after = sp ++ pre ++ r.2.after)
       (hbefore : r.2.before = pre.reverse ++ sp.reverse ++ z.before)
       (hline : r.2.line = z.line) (hty : r.1.ty ≠ .newline)
       (hpl : r.1.pos.line = z.line) (hpo : r.1.pos.off = z.before.length + sp.length) : Step z r
-  | newline (sp : Bytes) (hsp : ∀ c ∈ sp, isBlank c = true)
-      (hafter : z.after = sp ++ LF :: r.2.after)
-      (hbefore : r.2.before = LF :: sp.reverse ++ z.before)
+  | newline (sp cr : Bytes) (hsp : ∀ c ∈ sp, isBlank c = true) (hcr : cr = [] ∨ cr = [0x0D])
+      (hafter : z.after = sp ++ cr ++ LF :: r.2.after)
+      (hbefore : r.2.before = LF :: cr.reverse ++ sp.reverse ++ z.before)
       (hline : r.2.line = z.line + 1) (hcol : r.2.col = 1) (hstart : r.2.atStart = true)
       (hty : r.1.ty = .newline) (hpl : r.1.pos.line = z.line)
       (hpo : r.1.pos.off = z.before.length + sp.length) (hstop : r.1.stop = r.2.position) : Step z r
@@ -285,27 +304,36 @@ theorem Step.skip {z0 z : Z} {r : Token × Z} (sp : Bytes) (hsp : ∀ c ∈ sp, 
     | cons c t =>
       have hc : isBlank c = true := hsp' c (by simp)
       exact absurd hc (hz c (t ++ (pre ++ r.2.after)) (by rw [hafter]; simp))
-  | newline sp' hsp' hafter hbefore hline hcol hstart hty hpl hpo hstop =>
+  | newline sp' cr hsp' hcr hafter hbefore hline hcol hstart hty hpl hpo hstop =>
     cases sp' with
     | nil =>
-      refine Step.newline sp hsp ?_ ?_ (by rw [hline, hl]) hcol hstart hty (by rw [hpl, hl]) ?_ hstop
+      refine Step.newline sp cr hsp hcr ?_ ?_ (by rw [hline, hl]) hcol hstart hty (by rw [hpl, hl]) ?_ hstop
       · rw [ha, hafter]; simp
       · rw [hbefore, hb]; simp
       · rw [hpo, hb]; simp; omega
     | cons d t =>
       have hd : isBlank d = true := hsp' d (by simp)
-      exact absurd hd (hz d (t ++ LF :: r.2.after) (by rw [hafter]; simp))
+      exact absurd hd (hz d (t ++ cr ++ LF :: r.2.after) (by rw [hafter]; simp))
 
 theorem punct_nl (ty : TokType) (v : Bytes) {z : Z} (hp : peek z ≠ LF) (hty : ty ≠ .newline) :
     NL z (punct ty v z) :=
   mkTok_nl _ _ (advance_nl hp) hty
 
-theorem scanNewline_step {z : Z} {t : Bytes} (hz : z.after = LF :: t) : Step z (scanNewline z) := by
+theorem scanNewline_step {z : Z} (he : atEol z.after = true) : Step z (scanNewline z) := by
   unfold scanNewline
   simp only []
-  rw [advance_ascii hz (by decide)]
-  exact Step.newline [] (by simp) (by simpa [mkTok] using hz) (by simp [mkTok]) rfl rfl rfl rfl rfl
-    (by simp [mkTok, Z.position]) rfl
+  rcases atEol_cases he with ⟨t, hz⟩ | ⟨t, hz⟩
+  · have h0 : advIf (· == 0x0D) z = z := by simp [advIf, hz]
+    rw [h0, advance_ascii hz (by decide)]
+    exact Step.newline [] [] (by simp) (Or.inl rfl) (by simpa [mkTok] using hz) (by simp [mkTok]) rfl rfl rfl
+      rfl rfl (by simp [mkTok, Z.position]) rfl
+  · have h0 : advIf (· == 0x0D) z = { z with before := 0x0D :: z.before, after := LF :: t, col := z.col + 1 } := by
+      simp only [advIf, hz, beq_self_eq_true, if_true]
+      exact advance_ascii hz (by decide)
+    rw [h0, advance_ascii (z := { z with before := 0x0D :: z.before, after := LF :: t, col := z.col + 1 }) rfl
+      (by decide)]
+    exact Step.newline [] [0x0D] (by simp) (Or.inr rfl) (by simpa [mkTok] using hz) (by simp [mkTok]) rfl rfl
+      rfl rfl rfl (by simp [mkTok, Z.position]) rfl
 
 theorem step_ite {c : Prop} [Decidable c] {z : Z} {a b : Token × Z}
     (ha : c → Step z a) (hb : ¬c → Step z b) : Step z (if c then a else b) := by
@@ -319,8 +347,8 @@ theorem Step.congr {z z' : Z} {r : Token × Z} (ha : z'.after = z.after) (hb : z
   | tok sp pre hsp hpre hafter hbefore hline hty hpl hpo =>
     exact Step.tok sp pre hsp hpre (by rw [ha]; exact hafter) (by rw [hb]; exact hbefore)
       (by rw [hl]; exact hline) hty (by rw [hl]; exact hpl) (by rw [hb]; exact hpo)
-  | newline sp hsp hafter hbefore hline hcol hstart hty hpl hpo hstop =>
-    exact Step.newline sp hsp (by rw [ha]; exact hafter) (by rw [hb]; exact hbefore)
+  | newline sp cr hsp hcr hafter hbefore hline hcol hstart hty hpl hpo hstop =>
+    exact Step.newline sp cr hsp hcr (by rw [ha]; exact hafter) (by rw [hb]; exact hbefore)
       (by rw [hl]; exact hline) hcol hstart hty (by rw [hl]; exact hpl) (by rw [hb]; exact hpo) hstop
 
 theorem scanInLineAt_step (C : Classes) (z : Z) : Step z (scanInLineAt C z) := by
@@ -330,10 +358,8 @@ theorem scanInLineAt_step (C : Classes) (z : Z) : Step z (scanInLineAt C z) := b
   · rename_i ch t hz
     simp only []
     refine step_ite (fun h => ?_) fun c1 => ?_
-    · have : ch = LF := by simpa using h
-      subst this
-      exact scanNewline_step hz
-    have hc : ch ≠ LF := by simpa using c1
+    · exact scanNewline_step (by rw [hz]; exact h)
+    have hc : ch ≠ LF := atEol_ne_lf (by simpa using c1)
     have hp : peek z ≠ LF := by simpa [peek, hz] using hc
     refine step_ite (fun _ => Step.of_nl (scanComment_nl hp)) fun _ => ?_
     refine step_ite (fun _ => step_ite (fun _ => Step.of_nl (punct_nl _ _ hp (by decide))) fun _ =>
@@ -360,11 +386,9 @@ theorem scanInLine_step (C : Classes) (z0 : Z) : Step z0 (scanInLine C z0) := by
   have := advWhile_stop isBlank z0 c t hct
   simp [this]
 
-theorem scanLineStart_step (C : Classes) (z0 : Z) : Step z0 (scanLineStart C z0) := by
-  unfold scanLineStart
+theorem scanLineStartAt_step (C : Classes) (z : Z) : Step z (scanLineStartAt C z) := by
+  unfold scanLineStartAt
   simp only []
-  refine Step.congr (z := ({ z0 with atStart := false } : Z)) rfl rfl rfl ?_
-  generalize ({ z0 with atStart := false } : Z) = z
   refine step_ite (fun h => ?_) fun _ => ?_
   · have hp : peek z ≠ LF := by
       have : peek z = 0x3B := by simpa using h
@@ -374,6 +398,10 @@ theorem scanLineStart_step (C : Classes) (z0 : Z) : Step z0 (scanLineStart C z0)
   refine step_ite (fun _ => Step.of_nl (scanDate_nl z)) fun _ => ?_
   refine step_ite (fun _ => Step.of_nl (scanDirectiveOrAccount_nl z)) fun _ => ?_
   exact scanInLine_step C z
+
+theorem scanLineStart_step (C : Classes) (z0 : Z) : Step z0 (scanLineStart C z0) := by
+  unfold scanLineStart
+  exact Step.congr (z := ({ z0 with atStart := false } : Z)) rfl rfl rfl (scanLineStartAt_step C _)
 
 /-- Every call of `Next` is one of the three kinds of `Step`. -/
 theorem next_step (C : Classes) (z : Z) : Step z (next C z) := by
